@@ -21,7 +21,17 @@ Tie (what only the runtime can show), all of it on the real generated code compi
      truncations, extensions, bit flips and random strings from exact-size heap buffers into fresh, byte-poisoned
      (0x00/0xAA/0xFF/0xA5) and previously-used objects; the `codec` driver (or codec_ref) predicts the outcome class;
   X  decode-twice into one C++ object versus the `twice` request of the `variant` driver (Model/CppObj.lean);
-  O  the C capacity-override option with user-reduced capacities versus the flat index-safety model (`cser`/`cde`).
+  O  the C capacity-override option with user-reduced capacities versus the flat index-safety model (`cser`/`cde`): byte,
+     16-bit, 7-bit and BIT arrays (bit-packed storage), counts in (real storage, DSDL capacity], every NULL-argument
+     combination (`cserapi`/`cdeapi`); the dimension / comparison shape read off the generated text is compared with the
+     field the translated table Gen/CArrayKinds yields (`rowfield`);
+  P  every getter / setter / bit copy of the support headers (C and C++) rendered with --target-endianness any, little and
+     big, each call with the user buffer at address offset 0..7 inside its heap block (flush with the end, guard bytes in
+     front), versus the `bits` driver and the independent contract reference of harness/c14.py; -fsanitize=alignment at -O0.
+Totality: the set of acceptable error answers is built from the translator's table of documented codes (Gen/ErrorCodes:
+#define NUNAVUT_ERROR_* / enum class Error of the support templates); the C04 programs name codes through a header
+generated from that table (anything else prints err:undocumented-code-<n>); the shared codec shims' switch is checked
+against it.
 Failing-input search (the property's own predicate on the implementation): any sanitizer report / crash / guard
 violation, any dump that depends on the prior state of the destination, any undocumented error code, success of a
 routine that can only succeed by leaving the object.  Keys: kind (asan-<what> | ubsan-<what> | leak | wild-free |
@@ -54,7 +64,16 @@ SAN_OPT = ["-O1", "-g"] + SAN_COMMON  # the additional targets of the thorough t
 SAN_ENV = {"ASAN_OPTIONS": "detect_leaks=1:allocator_may_return_null=1:abort_on_error=0:exitcode=66",
            "UBSAN_OPTIONS": "print_stacktrace=0:halt_on_error=1:exitcode=67",
            "LSAN_OPTIONS": "exitcode=68"}
-DOCUMENTED = {"err:bad-array-length", "err:bad-union-tag", "err:bad-delimiter-header", "err:buffer-too-small"}
+# Protocol name of each documented code.  The SET of documented codes is not written here: it is the translator's table
+# (translate/c_array_kinds.py: #define NUNAVUT_ERROR_* / enum class Error of the support templates), see documented_codes().
+PROTO_NAME = {"NUNAVUT_ERROR_INVALID_ARGUMENT": "err:invalid-argument", "NUNAVUT_ERROR_SERIALIZATION_BUFFER_TOO_SMALL": "err:buffer-too-small",
+              "NUNAVUT_ERROR_REPRESENTATION_BAD_ARRAY_LENGTH": "err:bad-array-length", "NUNAVUT_ERROR_REPRESENTATION_BAD_UNION_TAG": "err:bad-union-tag",
+              "NUNAVUT_ERROR_REPRESENTATION_BAD_DELIMITER_HEADER": "err:bad-delimiter-header",
+              "SerializationBufferTooSmall": "err:buffer-too-small", "SerializationBadArrayLength": "err:bad-array-length",
+              "RepresentationBadUnionTag": "err:bad-union-tag", "RepresentationBadDelimiterHeader": "err:bad-delimiter-header"}
+# filled by documented_codes(); the harness never passes NULL outside the `null` requests, so err:invalid-argument is acceptable there only
+DOCUMENTED = set()
+CODES = {"c": {}, "cpp": {}}     # value -> protocol name
 NCPU = max(2, min(16, os.cpu_count() or 4))
 
 
@@ -142,6 +161,59 @@ def compile_cmd(cmd, timeout=1500):
 
 
 # ------------------------------------------------------------------------------------------------------------
+# the documented error codes (totality: every observed return code must be in the table)
+# ------------------------------------------------------------------------------------------------------------
+
+def proto_name(name):
+    if name in PROTO_NAME:
+        return PROTO_NAME[name]
+    return "err:" + re.sub(r"^nunavut-error-", "", re.sub(r"(?<=[a-z])(?=[A-Z])|_", "-", name).lower())
+
+
+def documented_codes(ctx, codes, vdrv):
+    """
+    codes = translator table.  Fills CODES / DOCUMENTED, checks that (a) the committed Lean table (driver request `codes`)
+    is the one of the tree under check, (b) the number -> name switch of the shared codec shims (harness/c/codec_shim_rt.h,
+    harness/cpp/codec_shim_rt.hpp, not this module's files) covers exactly the documented codes with the same names, so
+    that an answer `err:<name>` of a base request stands for a documented value and anything else surfaces as
+    err:unknown-code.
+    """
+    DOCUMENTED.clear()
+    for lang in ("c", "cpp"):
+        CODES[lang] = {v: proto_name(n) for n, v in codes[lang]}
+    for n, v in codes["c"]:
+        if n != "NUNAVUT_ERROR_INVALID_ARGUMENT":
+            DOCUMENTED.add(proto_name(n))
+    ctx.extra["documented_codes"] = {"c": dict(codes["c"]), "cpp": dict(codes["cpp"])}
+    if vdrv is not None:
+        ans = vdrv.ask(["codes c", "codes cpp", "codes c-returned", "codes cpp-returned"])
+        want = [",".join(f"{n}={v}" for n, v in codes["c"]), ",".join(f"{n}={v}" for n, v in codes["cpp"]),
+                ",".join(codes["c_returned"]), ",".join(codes["cpp_returned"])]
+        ctx.traces += 4
+        for q, a, w in zip(("c", "cpp", "c-returned", "cpp-returned"), ans, want):
+            if a != w:
+                ctx.disagree("error-code-table", {"request": "codes " + q}, a, w)
+    for lang, fn in (("c", HERE / "c" / "codec_shim_rt.h"), ("cpp", HERE / "cpp" / "codec_shim_rt.hpp")):
+        shim = {int(m.group(1)): m.group(2) for m in re.finditer(r'case (\d+): return "(err:[a-z-]+)";', fn.read_text())}
+        if shim != CODES[lang]:
+            ctx.broken.append({"kind": "error-code-table", "target": lang,
+                               "error": f"{fn.name} names the codes {shim}, the support template documents {CODES[lang]}"})
+
+
+def codes_header():
+    """c04_codes.h: return code -> protocol name for the C04 programs, generated from the table."""
+    out = ["/* GENERATED by harness/c04.py from the translator's table of documented error codes */", "#ifndef C04_CODES_H", "#define C04_CODES_H",
+           "#include <stdio.h>"]
+    for lang in ("c", "cpp"):
+        out += [f"static const char* c04_{lang}_err_name(int rc)", "{", "    static char other[48];", "    const int code = rc < 0 ? -rc : rc;",
+                "    switch (code)", "    {"]
+        out += [f'    case {v}: return "{n}";' for v, n in sorted(CODES[lang].items())]
+        out += ['    default: snprintf(other, sizeof other, "err:undocumented-code-%d", code); return other;', "    }", "}"]
+    out += ["#endif", ""]
+    return "\n".join(out)
+
+
+# ------------------------------------------------------------------------------------------------------------
 # codec targets with the C04 requests
 # ------------------------------------------------------------------------------------------------------------
 
@@ -206,6 +278,7 @@ class C04CTarget(ct.CTarget):
         src = src.replace("static int handle_##IDX(", "static int base_handle_##IDX(")
         first = re.search(r"^DEFINE_HANDLER\(\d+, \w+\)$", src, re.M).start()
         guard = "#define C04_GUARD_PADDING 1\n" if "-O0" in self.cflags else ""
+        (self.outdir / "gen" / "c04_codes.h").write_text(codes_header())
         src = src[:first] + c_mask_source(self.ns) + "\n" + guard + '#include "c04_handler.h"\n' + src[first:]
         src = re.sub(r"^DEFINE_HANDLER\((\d+), (\w+)\)$", r"DEFINE_HANDLER(\1, \2)\nC04_DEFINE_HANDLER(\1, \2)", src, flags=re.M)
         p.write_text(src)
@@ -221,6 +294,7 @@ class C04CppTarget(ct.CppTarget):
         if not super().generate():
             return False
         hit = 0
+        (self.outdir / "gen" / "c04_codes.h").write_text(codes_header())
         for fn in self.outdir.glob("shim_part*.cpp"):
             src = fn.read_text()
             if '#include "codec_shim_handle.hpp"' in src and "return handle<" in src:
@@ -650,9 +724,17 @@ def make_targets(ns, base, quick, tag):
              # little endian selects the bulk-copy paths (nunavutGetBits / nunavutCopyBits on whole arrays of standard-size primitives)
              C04CTarget(ns, base / "c_le", endianness="little", asserts=False, cc="gcc", cflags=SAN, tag=f"c/little")]
     for std in ("c++14", "c++17", "c++20", "c++17-pmr"):
+        # quick: the C++20 build is the one rendered with --target-endianness little (word-sized copies in the bitspan getters and
+        # setters: a type-punned or misaligned access there is visible to -fsanitize=alignment at -O0 only); thorough adds both
+        le = quick and std == "c++20"
         specs.append(C04CppTarget(ns, base / std.replace("+", "p"), std=std, asserts=False, cxx="g++", cxxflags=SAN,
-                                  parts=6 if quick else 8, tag=f"cpp/{std}"))
+                                  extra_nnvg=(["--target-endianness", "little"] if le else []),
+                                  parts=6 if quick else 8, tag=f"cpp/{std}" + ("/little" if le else "")))
     if not quick:
+        specs.append(C04CppTarget(ns, base / "cpp14_le", std="c++14", asserts=False, cxx="g++", cxxflags=SAN,
+                                  extra_nnvg=["--target-endianness", "little"], parts=8, tag="cpp/c++14/little"))
+        specs.append(C04CppTarget(ns, base / "cpp17_be", std="c++17", asserts=False, cxx="g++", cxxflags=SAN,
+                                  extra_nnvg=["--target-endianness", "big"], parts=8, tag="cpp/c++17/big"))
         specs.append(C04CTarget(ns, base / "c_little", endianness="little", asserts=False, cc="clang", cflags=SAN_OPT, tag="c/little/clang-O1"))
         specs.append(C04CTarget(ns, base / "c_big", endianness="big", asserts=False, cc="gcc", cflags=SAN_OPT, tag="c/big-O1"))
         specs.append(C04CppTarget(ns, base / "cpp14clang", std="c++14", asserts=True, cxx="clang++", cxxflags=SAN_OPT, parts=8, tag="cpp/c++14/clang+asserts-O1"))
@@ -840,7 +922,7 @@ def codec_stream(ctx, drivers, ns, label, specs, n_values, n_invalid, n_strings)
 
     def run_target(t):
         lines = [r["req"] for r in reqs]
-        answers, exit_kind = run_lines(t.exe, lines)
+        answers, exit_kind = run_lines(t.exe, lines, max_crashes=60)
         leak = find_leaking(t.exe, lines) if exit_kind else None
         return t, answers, exit_kind, leak
     with concurrent.futures.ThreadPoolExecutor(NCPU) as ex:
@@ -865,6 +947,9 @@ def codec_stream(ctx, drivers, ns, label, specs, n_values, n_invalid, n_strings)
             ctx.case(("K", label, t.name, r["req"]), nontrivial=(r["role"] != "de"))
             ctx.count(f"codec_{r['role']}")
             m = model.get(r["model"])
+            if a == "crash:too-many":
+                ctx.count("codec_not_run_after_too_many_crashes")
+                continue
             if a.startswith("crash:"):
                 fail({"kind": a.split(":", 1)[1], "target": t.name, "construct": "serialize" if r["kind"] == "ser" else "deserialize"},
                      f"{t.name}: the generated code of {gt.full_name} died under the sanitizers on `{r['req'][:120]}`", replay_of(t, r, {"observed": a}))
@@ -969,42 +1054,84 @@ def codec_stream(ctx, drivers, ns, label, specs, n_values, n_invalid, n_strings)
 # soon as the user reduces the array).
 OV_TYPES = {"S8": {"eb": 8, "cap": 6, "lp": 8}, "S16": {"eb": 16, "cap": 6, "lp": 8}, "S7": {"eb": 7, "cap": 6, "lp": 8},
             "B255": {"eb": 8, "cap": 255, "lp": 8}, "W255": {"eb": 16, "cap": 255, "lp": 8}, "B65535": {"eb": 8, "cap": 65535, "lp": 16},
-            "B15": {"eb": 8, "cap": 15, "lp": 8}, "B7": {"eb": 8, "cap": 7, "lp": 8}}
+            "B15": {"eb": 8, "cap": 15, "lp": 8}, "B7": {"eb": 8, "cap": 7, "lp": 8},
+            # variable-length BIT arrays (`bool[<=cap]`, bit-packed storage); Bits9u: `uint3 a` in front, nothing byte-aligned
+            "Bits20": {"eb": 1, "cap": 20, "lp": 8, "bits": True}, "Bits255": {"eb": 1, "cap": 255, "lp": 8, "bits": True},
+            "Bits9u": {"eb": 1, "cap": 9, "lp": 8, "bits": True, "aw": 3}}
+OV_KIND = {"S8": "VByte", "S16": "VZero", "S7": "VGen", "B255": "VByte", "W255": "VZero", "B65535": "VByte", "B15": "VByte", "B7": "VByte",
+           "Bits20": "VBool", "Bits255": "VBool", "Bits9u": "VBool"}      # row of Gen/CArrayKinds the type is an instance of
 OV_CONFIGS_QUICK = [
     ("default", {}),
-    ("reduced-a", {"S8": 2, "S16": 2, "S7": 2, "B255": 16, "W255": 16, "B65535": 16, "B15": 4, "B7": 2}),
+    ("reduced-a", {"S8": 2, "S16": 2, "S7": 2, "B255": 16, "W255": 16, "B65535": 16, "B15": 4, "B7": 2, "Bits20": 2, "Bits255": 16, "Bits9u": 1}),
     ("reduced-1", {t: 1 for t in OV_TYPES}),
 ]
 OV_CONFIGS_MORE = [
-    ("reduced-b", {"S8": 3, "S16": 5, "S7": 3, "B255": 100, "W255": 254, "B65535": 255, "B15": 14, "B7": 6}),
-    ("reduced-c", {"S8": 5, "S16": 3, "S7": 5, "B255": 254, "W255": 2, "B65535": 65534, "B15": 8, "B7": 4}),
-    ("reduced-some", {"S8": 2, "B255": 16, "B65535": 300}),
+    ("reduced-b", {"S8": 3, "S16": 5, "S7": 3, "B255": 100, "W255": 254, "B65535": 255, "B15": 14, "B7": 6, "Bits20": 9, "Bits255": 100, "Bits9u": 8}),
+    ("reduced-c", {"S8": 5, "S16": 3, "S7": 5, "B255": 254, "W255": 2, "B65535": 65534, "B15": 8, "B7": 4, "Bits20": 17, "Bits255": 248, "Bits9u": 0}),
+    ("reduced-some", {"S8": 2, "B255": 16, "B65535": 300, "Bits255": 8}),
 ]
 
 
-def field_flags(header_text, eb):
-    """From the generated serializer: which writes go through the checked setter?  -> (a, prefix, elements, b)"""
-    m = re.search(r"\{\s*// saturated uint8 a(.*?)\n    \{\s*// saturated uint\d+\[<=\d+\] xs(.*?)\n    \{\s*// saturated uint8 b(.*?)\n    (?:if \(offset_bits % 8U|// It is assumed)",
-                  header_text, re.S)
-    if not m:
-        raise RuntimeError("cannot find the serialization blocks of the fields a, xs, b")
-    blk_a, blk, blk_b = m.group(1), m.group(2), m.group(3)
+def ov_shape(header_text, t):
+    """
+    What the generated header of ov.<t> does, read off its text by the translator's reader (translate/c_array_kinds.py):
+    -> dict(flags=(a, prefix, elements, b checked), stor_macro, cmp_ser, cmp_de)
+    """
+    from translate import c_array_kinds as ak
+    tname = f"ov_{t}_1_0"
+    d = OV_TYPES[t]
+    macro = f"{tname}_xs_ARRAY_CAPACITY_"
+    flags = ak.write_flags(header_text, tname)
+    member = "bitpacked" if d.get("bits") else "elements"
+    sm = re.search(r"struct[^\n]*\n\s*\{(.*?)\n\s*size_t count;\n\s*\} xs;", header_text, re.S)
+    am = re.search(r"^\s*[A-Za-z_][\w ]*\s" + member + r"\[(.*)\];\s*$", sm.group(1), re.M) if sm else None
+    if not am:
+        raise RuntimeError(f"{tname}: member {member} not found")
+    body = ak.serializer_blocks(header_text, tname)[0]
+    dm = re.search(r"static inline int8_t " + tname + r"_deserialize_\((.*?)\n}\n", header_text, re.S)
+    cs = re.findall(r"if \(obj->xs\.count > (.*)\)\n", body)
+    cd = re.findall(r"if \(out_obj->xs\.count > (.*)\)\n", dm.group(1) if dm else "")
+    if len(cs) != 1 or len(cd) != 1:
+        raise RuntimeError(f"{tname}: length comparisons not found")
+    return {"flags": flags, "stor_macro": macro in am.group(1), "dim": am.group(1).strip(),
+            "cmp_ser": ak.classify_cmp(cs[0], macro, "obj->xs", d["cap"]), "cmp_de": ak.classify_cmp(cd[0], macro, "out_obj->xs", d["cap"])}
 
-    def prim_checked(b):
-        if "nunavutSetUxx" in b:
-            return True
-        if "buffer[offset_bits / 8U]" in b or "memmove" in b or "nunavutCopyBits" in b:
-            return False
-        raise RuntimeError("unrecognised primitive write: " + b[:200])
-    pre, _, loop = blk.partition("for (")
-    lp_checked = prim_checked(pre.split("// Array length prefix", 1)[1]) if "// Array length prefix" in pre else prim_checked(pre)
-    if loop:
-        elems_checked = prim_checked(loop)
+
+def ov_fields(t, shape, usr):
+    """Model fields of ov.<t> when the user defined the capacity macro as `usr` (None: not defined) -> (fields, cmpStorage flag)"""
+    d = OV_TYPES[t]
+    ac, lpc, ec, bc = shape["flags"]
+    sl = d["cap"] if usr is None else usr
+    if d.get("bits"):
+        if shape["cmp_ser"] not in ("lit", "macro") or shape["cmp_de"] not in ("lit", "macro"):
+            raise RuntimeError(f"{t}: a bit array compared by {shape['cmp_ser']}/{shape['cmp_de']} is outside the model")
+        arr = f"vb:{d['lp']}:{d['cap']}:{sl}:{int(shape['stor_macro'])}:{shape['cmp_ser']}:{shape['cmp_de']}:{int(lpc)}"
+        cs = "0"
     else:
-        elems_checked = False
-        if "nunavutCopyBits" not in pre:
-            raise RuntimeError("unrecognised bulk copy")
-    return prim_checked(blk_a), lp_checked, elems_checked, prim_checked(blk_b)
+        if shape["cmp_ser"] != shape["cmp_de"] or shape["cmp_ser"] not in ("lit", "storage"):
+            raise RuntimeError(f"{t}: comparisons {shape['cmp_ser']}/{shape['cmp_de']} are outside the model")
+        arr = f"v:{d['lp']}:{d['eb']}:{d['cap']}:{sl if shape['stor_macro'] else d['cap']}:{int(lpc)}:{int(ec)}"
+        cs = "1" if shape["cmp_ser"] == "storage" else "0"
+    return f"p:{d.get('aw', 8)}:{int(ac)};{arr};p:8:{int(bc)}", cs
+
+
+def ov_real_slots(t, shape, usr):
+    """how many elements (bit arrays: bits = 8 * sizeof(bitpacked)) the C array of ov.<t> really has"""
+    d = OV_TYPES[t]
+    n = d["cap"] if (usr is None or not shape["stor_macro"]) else usr
+    return 8 * ((n + 7) // 8) if d.get("bits") else n
+
+
+def ov_wire(t, count, extra_len):
+    """a message of ov.<t>: a = 0x5A (truncated to its width), the length prefix `count`, then `extra_len` bytes of payload"""
+    d = OV_TYPES[t]
+    aw, lp = d.get("aw", 8), d["lp"]
+    val = (0x5A & ((1 << aw) - 1)) | (count << aw)
+    nbits = aw + lp
+    for i in range(extra_len):
+        val |= ((0x30 + i) & 0x7F) << nbits
+        nbits += 8
+    return val.to_bytes((nbits + 7) // 8, "little")
 
 
 def override_prepare(ctx):
@@ -1039,6 +1166,7 @@ def override_build(state):
     if p.returncode != 0:
         state["gen_log"] = (p.stdout + p.stderr)[-2000:]
         return
+    (state["gen"] / "c04_codes.h").write_text(codes_header())
     def cpp_job(j):
         std, cname, g, exe, cmd = j
         if cname == "default":      # generate once per standard (the second configuration of a standard waits for the first)
@@ -1047,6 +1175,7 @@ def override_build(state):
                                capture_output=True, text=True, timeout=600, env=env)
             if q.returncode != 0:
                 return False, (q.stdout + q.stderr)[-2000:]
+            (g / "c04_codes.h").write_text(codes_header())
         return None
     with concurrent.futures.ThreadPoolExecutor(8) as ex:
         gens = list(ex.map(cpp_job, [j for j in state["cpp_jobs"] if j[1] == "default"]))
@@ -1062,17 +1191,34 @@ def override_stream(ctx, vdrv, state):
         ctx.broken.append({"kind": "override-generate", "log_tail": state["gen_log"]})
         return
     gen, configs, jobs, res = state["gen"], state["configs"], state["jobs"], state["res"]
-    flags, cmp_storage = {}, {}
+    shapes = {}
     for t, d in OV_TYPES.items():
         try:
-            htxt = (gen / "ov" / f"{t}_1_0.h").read_text()
-            flags[t] = field_flags(htxt, d["eb"])
+            shapes[t] = ov_shape((gen / "ov" / f"{t}_1_0.h").read_text(), t)
+            ov_fields(t, shapes[t], None)
         except Exception as e:
-            ctx.broken.append({"kind": "override-translate", "type": t, "error": str(e)})
+            ctx.broken.append({"kind": "override-translate", "type": t, "error": f"{type(e).__name__}: {str(e)[:600]}"})
             return
-        # does the emitted comparison use the real array or the DSDL capacity?  (decided from the text, used for the model)
-        cmp_storage[t] = "1" if re.search(r"xs\.count > \(?sizeof|xs\.count > ov_" + t + r"_1_0_xs_ARRAY_CAPACITY_", htxt) else "0"
-    ctx.extra["override_length_check_uses_real_capacity"] = all(v == "1" for v in cmp_storage.values())
+    ctx.extra["override_length_check_uses_real_capacity"] = all(sh["cmp_ser"] == "storage" for t, sh in shapes.items() if not OV_TYPES[t].get("bits"))
+    ctx.extra["override_bit_array_shape"] = {t: {"dimension": sh["dim"], "cmp_ser": sh["cmp_ser"], "cmp_de": sh["cmp_de"]}
+                                             for t, sh in shapes.items() if OV_TYPES[t].get("bits")}
+    # the generated table of array kinds (Gen/CArrayKinds.lean, what the theorems are about) must describe these headers:
+    # the field the Lean row yields for (prefix, element bits, capacity, user capacity) = the field read off the text here
+    if vdrv is not None:
+        rq, exp = [], []
+        for t, d in OV_TYPES.items():
+            for usr in (d["cap"], 1, max(1, d["cap"] // 2)):
+                rq.append(f"rowfield {OV_KIND[t]} 1 0 {d['lp']} {d['eb']} {d['cap']} {usr}")
+                f, cs = ov_fields(t, shapes[t], usr)
+                exp.append(f.split(";")[1])
+        for q, a, e in zip(rq, vdrv.ask(rq), exp):
+            ctx.traces += 1
+            ctx.count("override_table_rows_compared")
+            got = a.split(" ")[1] if a.startswith("ok ") else a
+            # the table's corpus type fixes which writes are checked for ITS alignment; dimension, bounds and user capacity must agree
+            strip = (lambda x: ":".join(x.split(":")[:-1])) if e.startswith("vb:") else (lambda x: ":".join(x.split(":")[:-2]))
+            if strip(got) != strip(e):
+                ctx.disagree("override/array-kind-table", {"request": q}, a, e)
     for (name, red, exe, cmdline), (ok, log) in zip(jobs, res):
         if not ok:
             ctx.broken.append({"kind": "override-build", "config": name, "log_tail": log[-2000:]})
@@ -1080,41 +1226,53 @@ def override_stream(ctx, vdrv, state):
         defines = " ".join(x for x in cmdline if x.startswith("-Dov_")) or "(none)"
         lines, meta = [], []
         for t, d in OV_TYPES.items():
-            eb, cap, lp = d["eb"], d["cap"], d["lp"]
-            real_sl = red.get(t, cap)
+            eb, cap, lp, aw = d["eb"], d["cap"], d["lp"], d.get("aw", 8)
+            usr = red.get(t)
+            slots = ov_real_slots(t, shapes[t], usr)          # elements (bits) really in the C array
+            macro = cap if usr is None else usr                # value of the capacity macro
             lines.append(f"info {t}"); meta.append((t, "info", None))
-            need_bits = lambda c: 8 + lp + c * eb + 8
-            counts = set(range(0, min(cap, 8) + 3)) | {real_sl - 1, real_sl, real_sl + 1, real_sl + 2, (real_sl + cap) // 2, cap - 1, cap, cap + 1,
-                                                         200, 255, 256, 65535, 70000}
+            need_bits = lambda c: aw + lp + c * eb + 8
+            counts = set(range(0, min(cap, 8) + 3)) | {macro - 1, macro, macro + 1, macro + 2, (macro + cap) // 2, cap - 1, cap, cap + 1,
+                                                         slots - 1, slots, slots + 1, 200, 255, 256, 65535, 70000}
             counts = sorted(c for c in counts if c >= 0)
             for count in counts:
-                maxb = (need_bits(min(count, real_sl)) + 7) // 8
+                maxb = (need_bits(min(count, slots)) + 7) // 8
                 caps = {max(0, maxb - 1), maxb, maxb + 1, (need_bits(cap) + 7) // 8, 64}
-                if t not in red or count in (0, real_sl):
+                if usr is None or count in (0, macro):
                     caps |= {0, 1, 2}       # (with the buffer check compiled out every too-small buffer is the known overrun: sampled)
                 for bcap in sorted(caps):
                     lines.append(f"ser {t} {count} {bcap}"); meta.append((t, "ser", (count, bcap)))
             for count in counts:
                 if count >= 1 << lp:
                     continue
-                lens = (0, 1, count * ((eb + 7) // 8) + 1, 40) if count <= 300 else (0, 1, 40)
+                lens = (0, 1, (count * eb + 7) // 8 + 1, 40) if count <= 300 else (0, 1, 40)
                 for extra_len in lens:
-                    data = bytes([0x5A]) + count.to_bytes(lp // 8, "little") + bytes((0x30 + i) & 0x7F for i in range(extra_len))
+                    data = ov_wire(t, count, extra_len)
                     lines.append(f"de {t} {data.hex()}"); meta.append((t, "de", (count, data)))
             lines.append(f"de {t} -"); meta.append((t, "de", (0, b"")))
+            # NULL arguments: every combination, both directions (totality: INVALID_ARGUMENT, nothing touched)
+            for mask in range(8):
+                lines.append(f"null {t} ser {mask}"); meta.append((t, "nullser", (mask, None)))
+                for data in (b"", ov_wire(t, 1, 3)):
+                    lines.append(f"null {t} de {mask} {data.hex() or '-'}"); meta.append((t, "nullde", (mask, data)))
         answers, exit_kind = run_lines(exe, lines, max_crashes=4000)
         # model
         mlines = []
         for (t, op, arg) in meta:
             d = OV_TYPES[t]
-            real_sl = red.get(t, d["cap"])
+            usr = red.get(t)
             check = "0" if t in red else "1"      # a user-defined capacity macro of a type compiles ITS buffer check out (see `info`)
-            ac, lpc, ec, bc = flags[t]
-            fields = f"p:8:{int(ac)};v:{d['lp']}:{d['eb']}:{d['cap']}:{real_sl}:{int(lpc)}:{int(ec)};p:8:{int(bc)}"
+            fields, cs = ov_fields(t, shapes[t], usr)
             if op == "ser":
-                mlines.append(f"cser {check} {cmp_storage[t]} {arg[1]} {fields} p;c:{arg[0]};p")
+                mlines.append(f"cser {check} {cs} {arg[1]} {fields} p;c:{arg[0]};p")
             elif op == "de":
-                mlines.append(f"cde {cmp_storage[t]} {fields} {arg[1].hex() or '-'}")
+                mlines.append(f"cde {cs} {fields} {arg[1].hex() or '-'}")
+            elif op == "nullser":
+                mk = arg[0]
+                mlines.append(f"cserapi {mk & 1} {(mk >> 1) & 1} {(mk >> 2) & 1} {check} {cs} 80000 {fields} p;c:0;p")
+            elif op == "nullde":
+                mk = arg[0]
+                mlines.append(f"cdeapi {mk & 1} {(mk >> 1) & 1} {(mk >> 2) & 1} {cs} {fields} {arg[1].hex() or '-'}")
             else:
                 mlines.append(None)
         mans = vdrv.ask([m for m in mlines if m is not None]) if vdrv is not None else []
@@ -1122,24 +1280,22 @@ def override_stream(ctx, vdrv, state):
         nfail = {}
         for (t, op, arg), l, a, ml in zip(meta, lines, answers, mlines):
             d = OV_TYPES[t]
-            real_sl = red.get(t, d["cap"])
+            usr = red.get(t)
+            slots = ov_real_slots(t, shapes[t], usr)
             check = "0" if t in red else "1"
-            sl = red.get(t)
+            bits = bool(d.get("bits"))
             if op == "info":
                 mm = re.match(r"ok sl=(\d+) cap=(\d+) check=(\d)", a)
-                if not mm or int(mm.group(1)) != real_sl or int(mm.group(2)) != d["cap"] or mm.group(3) != check:
-                    ctx.disagree("override/info", {"config": name, "request": l}, f"sl={real_sl} cap={d['cap']} check={check}", a)
+                real = slots // 8 if bits else slots       # bit arrays report sizeof(bitpacked)
+                if not mm or int(mm.group(1)) != real or int(mm.group(2)) != d["cap"] or mm.group(3) != check:
+                    ctx.disagree("override/info", {"config": name, "request": l}, f"sl={real} cap={d['cap']} check={check}", a)
                 continue
             m = next(it) if vdrv is not None else None
-            ctx.case(("O", name, l), nontrivial=(real_sl != d["cap"]))
-            if real_sl < count <= d["cap"]:
-                ctx.count("override_count_between_reduced_and_dsdl_capacity")
-            if d["cap"] + 1 == 1 << d["lp"]:
-                ctx.count("override_capacity_is_prefix_maximum")
-            ctx.count("override_" + op)
-            count = arg[0]
+            ctx.case(("O", name, l), nontrivial=(usr is not None and usr != d["cap"]))
+            ctx.count("override_" + op + ("_bits" if bits else ""))
+            dsdl = f"uint{d.get('aw', 8)} a\n{'bool' if bits else 'uint' + str(d['eb'])}[<={d['cap']}] xs\nuint8 b\n@sealed\n"
             rp = {"stream": "override", "config": name, "defines": defines,
-                  "nnvg": "--target-language c --enable-override-variable-array-capacity", "dsdl": f"uint8 a\nuint{d['eb']}[<={d['cap']}] xs\nuint8 b\n@sealed\n",
+                  "nnvg": "--target-language c --enable-override-variable-array-capacity", "dsdl": dsdl,
                   "request": l, "observed": a, "model": m}
 
             def fail(key, what):
@@ -1147,6 +1303,23 @@ def override_stream(ctx, vdrv, state):
                 nfail[kk] = nfail.get(kk, 0) + 1
                 if nfail[kk] <= 2:
                     ctx.fail(key, what, rp)
+            if op in ("nullser", "nullde"):
+                if a.startswith("crash:"):
+                    fail({"kind": a.split(":", 1)[1], "target": "c/override", "construct": "null-argument"}, "a NULL argument is dereferenced")
+                elif a.startswith("err:") and a not in DOCUMENTED | {"err:invalid-argument"}:
+                    fail({"kind": "undocumented-error", "target": "c/override", "construct": op, "error": a}, "undocumented outcome")
+                if m is not None:
+                    ctx.traces += 1
+                    cm = "ok" if m.startswith("ok") else m
+                    ca = "ok" if a.startswith("ok") else a
+                    if ca != cm:
+                        ctx.disagree("override/" + name, {"request": l}, m, a)
+                continue
+            count = arg[0]
+            if slots < count <= d["cap"]:
+                ctx.count("override_count_between_real_and_dsdl_capacity" + ("_bits" if bits else ""))
+            if d["cap"] + 1 == 1 << d["lp"]:
+                ctx.count("override_capacity_is_prefix_maximum")
             left_object = False
             if a.startswith("crash:") or a.startswith("guard:"):
                 kind = a.split(":", 1)[1].split(" ")[0]
@@ -1155,13 +1328,15 @@ def override_stream(ctx, vdrv, state):
                     fail({"kind": kind, "target": "c/override", "construct": "serialize-capacity-check-disabled"},
                          "with a user-overridden capacity the serialization buffer check is compiled out; a buffer smaller than the message overruns")
                 else:
-                    fail({"kind": kind, "target": "c/override" if sl is not None else "c", "construct": f"{'deserialize' if op == 'de' else 'serialize'}-array-length-check"},
+                    fail({"kind": kind, "target": "c/override" if usr is not None else "c",
+                          "construct": f"{'deserialize' if op == 'de' else 'serialize'}-{'bit-' if bits else ''}array-length-check"},
                          "the generated C code leaves the object / buffer")
                 left_object = True
-            elif a.startswith("ok") and count > real_sl and (op == "ser" or (op == "de" and int(a.split(" ")[1]) > real_sl)):
+            elif a.startswith("ok") and count > slots and (op == "ser" or (op == "de" and int(a.split(" ")[1]) > slots)):
                 # success is only possible by accessing elements the array does not have
-                fail({"kind": "object-overflow", "target": "c/override", "construct": f"{'deserialize' if op == 'de' else 'serialize'}-array-length-check"},
-                     f"count {count} accepted for an array of {real_sl} elements: the routine accessed elements outside the object")
+                fail({"kind": "object-overflow", "target": "c/override",
+                      "construct": f"{'deserialize' if op == 'de' else 'serialize'}-{'bit-' if bits else ''}array-length-check"},
+                     f"count {count} accepted for an array of {slots} {'bits' if bits else 'elements'}: the routine accessed elements outside the object")
                 left_object = True
             elif a.startswith("err:") and a not in DOCUMENTED:
                 fail({"kind": "undocumented-error", "target": "c/override", "construct": op, "error": a}, "undocumented outcome")
@@ -1173,7 +1348,6 @@ def override_stream(ctx, vdrv, state):
                 elif left_object:
                     ctx.disagree("override/" + name, {"request": l}, m, a)
                 else:
-                    km = "ser" if op == "ser" else "de"
                     cm = ("ok", int(m.split(" ")[1]) // 8) if m.startswith("ok") else ("err", m[4:]) if m.startswith("err:") else ("other", m)
                     if op == "ser":
                         ca = outcome_class(a, "ser")
@@ -1192,6 +1366,8 @@ def override_stream(ctx, vdrv, state):
         check = "1" if cname == "default" else "0"
         lines, meta = [], []
         for t, d in OV_TYPES.items():
+            if d.get("bits"):
+                continue        # the C++ types keep bool arrays in a container: no bit-packed C array to overrun
             eb, cap, lp = d["eb"], d["cap"], d["lp"]
             lines.append(f"info {t}"); meta.append((t, "info", None))
             need = lambda c: (8 + lp + c * eb + 8 + 7) // 8
@@ -1230,7 +1406,192 @@ def override_stream(ctx, vdrv, state):
                 cm = ("ok", int(m.split(" ")[1]) // 8) if m.startswith("ok") else ("err", m[4:]) if m.startswith("err:") else ("other", m)
                 if bad or outcome_class(a, "ser") != cm:
                     ctx.disagree(f"override/cpp/{std}/{cname}", {"request": l}, m, a)
-    ctx.sample({"stream": "override", "configs": [c[0] for c in configs], "checked_setter_used_for": {t: {"a": f[0], "prefix": f[1], "elements": f[2], "b": f[3]} for t, f in flags.items()}})
+    ctx.sample({"stream": "override", "configs": [c[0] for c in configs], "checked_setter_used_for": {t: dict(zip(("a", "prefix", "elements", "b"), sh["flags"])) for t, sh in shapes.items()}})
+
+
+# ------------------------------------------------------------------------------------------------------------
+# stream P: the support primitives of every endianness rendering at every byte misalignment of the user buffer
+# ------------------------------------------------------------------------------------------------------------
+
+PRIM_RENDERINGS = ("any", "little", "big")
+
+
+def prims_cases(ctx):
+    """-> list of (C request, C++ request) without the leading misalignment; rng-dependent, call in the main thread"""
+    rng = ctx.rng
+    hx = lambda b: b.hex() if b else "-"
+    if ctx.quick:
+        sizes, offs = [0, 1, 2, 3, 4, 5, 8, 9], [0, 1, 7, 8, 9, 15, 16, 17, 24, 31, 32, 40]
+        setlens, bitlens = [1, 7, 8, 9, 16, 17, 32, 33, 63, 64, 65], [0, 1, 7, 8, 9, 16, 33]
+    else:
+        sizes, offs = list(range(0, 14)) + [16, 17], list(range(0, 34)) + [39, 40, 41, 56, 63, 64, 65, 72]
+        setlens, bitlens = [0, 1, 2, 7, 8, 9, 15, 16, 17, 24, 31, 32, 33, 40, 48, 56, 63, 64, 65, 255], [0, 1, 2, 7, 8, 9, 15, 16, 17, 33, 64, 65]
+    out = []
+    for size in sizes:
+        for off in offs:
+            buf = bytes(rng.getrandbits(8) for _ in range(size)) if (size + off) % 3 else bytes([0xFF]) * size
+            h = hx(buf)
+            for w in (8, 16, 32, 64):
+                for n in sorted({1, w - 1, w, w + 1}):
+                    for sg in "ui":
+                        out.append((f"get{sg}{w} {h} {size} {off} {n}", f"x.get{sg}{w} {h} {off} {n}"))
+            for n in setlens:
+                val = rng.choice([(1 << 64) - 1, 0, rng.getrandbits(64), rng.getrandbits(n) if n else 0])
+                out.append((f"setu {h} {size} {off} {val} {n}", f"x.setu {h} {off} {val} {n}"))
+                ival = rng.choice([-1, 0, -(1 << 63), (1 << 63) - 1, rng.getrandbits(64) - (1 << 63)])
+                out.append((f"seti {h} {size} {off} {ival} {n}", f"x.seti {h} {off} {ival} {n}"))
+            bit = rng.getrandbits(1)
+            out.append((f"setbit {h} {size} {off} {bit}", f"x.setbit {h} {off} {bit}"))
+            out.append((f"getbit {h} {size} {off}", f"x.getbit {h} {off}"))
+            for n in bitlens:
+                o = bytes(rng.getrandbits(8) for _ in range((n + 7) // 8))
+                out.append((f"getbits {hx(o)} {h} {size} {off} {n}", f"x.getbits {h} {off} {hx(o)} {n}"))
+            for w in (16, 32, 64):
+                fb = rng.choice([0, 1 << (w - 1 if w != 16 else 31), rng.getrandbits(32 if w != 64 else 64), 0x3F800000 if w != 64 else 0x3FF0000000000000,
+                                 0x7F800000 if w != 64 else 0x7FF0000000000000, 0x477FE000 if w != 64 else 0x40EFFC0000000000])
+                out.append((f"setf{w} {h} {size} {off} {fb:x}", f"x.setf{w} {h} {off} {fb:x}"))
+                out.append((f"getf{w} {h} {size} {off}", f"x.getf{w} {h} {off}"))
+    cl = [0, 1, 8, 13, 16, 64, 65] if ctx.quick else [0, 1, 7, 8, 9, 13, 16, 31, 32, 33, 64, 65, 200]
+    co = [0, 3, 8, 11] if ctx.quick else [0, 1, 3, 7, 8, 9, 11, 16, 21]
+    for s_off in co:
+        for d_off in co:
+            for n in cl:
+                src = bytes(rng.getrandbits(8) for _ in range((s_off + n + 7) // 8 if n else 0))
+                dst = bytes(rng.getrandbits(8) for _ in range((d_off + n + 7) // 8 if n else 0))
+                out.append((f"copy {hx(dst)} {d_off} {n} {hx(src)} {s_off}", f"x.copy {hx(dst)} {d_off} {hx(src)} {s_off} {n}"))
+    return out
+
+
+def prims_prepare(ctx):
+    base = ctx.scratch / "prims"
+    base.mkdir(parents=True, exist_ok=True)
+    progs = []
+    for e in PRIM_RENDERINGS:
+        progs.append({"lang": "c", "endianness": e, "std": "c11", "name": f"c/{e}/prims", "dir": base / f"c_{e}", "exe": base / f"prims_c_{e}"})
+    stds = {"any": ["c++14"], "little": ["c++14"] + ([] if ctx.quick else ["c++17", "c++20"]), "big": ["c++14"]}
+    for e in PRIM_RENDERINGS:
+        for std in stds[e]:
+            tag = std.replace("+", "p")
+            progs.append({"lang": "cpp", "endianness": e, "std": std, "name": f"cpp/{std}/{e}/prims", "dir": base / f"{tag}_{e}", "exe": base / f"prims_{tag}_{e}"})
+    return {"base": base, "progs": progs, "cases": prims_cases(ctx)}
+
+
+def prims_build_one(pr, nsdir):
+    env = dict(os.environ, PYTHONPATH=str(common.REPO / "src"), PYTHONDONTWRITEBYTECODE="1")
+    cmd = [common.PY, "-m", "nunavut", "--target-language", pr["lang"], "--experimental-languages", "--generate-support", "only",
+           "--target-endianness", pr["endianness"], "-O", str(pr["dir"])]
+    if pr["lang"] == "cpp":
+        cmd += ["--language-standard", pr["std"]]
+    p = subprocess.run(cmd + [str(nsdir)], env=env, capture_output=True, text=True, timeout=600)
+    if p.returncode != 0:
+        pr["ok"], pr["log"] = False, (p.stdout + p.stderr)[-2000:]
+        return
+    if pr["lang"] == "c":
+        cc = ["gcc", "-std=c11", "-Wall", "-Wno-unused-function"] + SAN + ["-I", str(pr["dir"]), str(HERE / "c" / "c04_prims.c"), "-o", str(pr["exe"]), "-lm"]
+    else:
+        cc = ["g++", f"-std={pr['std']}", "-Wall", "-Wno-unused-function"] + SAN + ["-I", str(pr["dir"]), str(HERE / "cpp" / "c04_prims.cpp"), "-o", str(pr["exe"])]
+    pr["cmd"] = cc
+    pr["ok"], pr["log"] = compile_cmd(cc)
+
+
+def prims_build(state):
+    nsdir = state["base"] / "ns"
+    nsdir.mkdir(exist_ok=True)
+    (nsdir / "A.1.0.dsdl").write_text("uint8 x\n@sealed\n")
+    with concurrent.futures.ThreadPoolExecutor(NCPU) as ex:
+        list(ex.map(lambda pr: prims_build_one(pr, nsdir), state["progs"]))
+
+
+def prims_float_ref(req):
+    """raw-bit reference of the 32/64-bit float accessors (they are bit copies); None for float16 (value: property C14)"""
+    t = req.split(" ")
+    op = t[0][2:] if t[0].startswith("x.") else t[0]
+    cpp = t[0].startswith("x.")
+    w = int(op[4:])
+    if w == 16:
+        return None
+    buf = b"" if t[1] == "-" else bytes.fromhex(t[1])
+    off = int(t[2]) if cpp else int(t[3])
+    size = len(buf) if cpp else int(t[2])
+    if op.startswith("setf"):
+        bits = int(t[-1], 16)
+        if size * 8 < off + w:
+            return "ok -3 " + (buf.hex() or "-")
+        v = int.from_bytes(buf, "little")
+        m = ((1 << w) - 1) << off
+        return "ok 0 " + (((v & ~m) | ((bits << off) & m)).to_bytes(len(buf), "little").hex() or "-")
+    v = (int.from_bytes(buf[:size], "little") >> off) & ((1 << w) - 1)
+    return f"ok {v:x}"
+
+
+def prims_stream(ctx, bdrv, state):
+    from . import c14
+    oracle = c14.Oracle()
+    cases = state["cases"]
+    ctx.extra["prims_domain"] = {"requests_per_program": len(cases) * 8, "programs": [p["name"] for p in state["progs"]],
+                                 "rule": "every getter / setter / bit copy of the support header x buffer sizes x bit offsets x lengths around each width, "
+                                         "each at buffer base misalignment 0..7 (buffer flush with the end of its heap block, guard bytes in front)"}
+    # the model is asked once per distinct request (it has no addresses: the prediction is the same for every misalignment)
+    def model_line(req, pr):
+        op = req.split(" ", 1)[0]
+        if "f" in op.replace("x.", "")[3:4]:
+            return None
+        if pr["lang"] == "c" and pr["endianness"] == "little" and re.fullmatch(r"(setu|seti|get[ui]\d+)", op):
+            return op + "_le " + req.split(" ", 1)[1]
+        return req
+    for pr in state["progs"]:
+        if not pr.get("ok"):
+            ctx.broken.append({"kind": "prims-build", "target": pr["name"], "log_tail": pr.get("log", "")[-2500:]})
+            continue
+        idx = 0 if pr["lang"] == "c" else 1
+        reqs = [c[idx] for c in cases]
+        lines = [f"{k} {r}" for r in reqs for k in range(8)]
+        answers, exit_kind = run_lines(pr["exe"], lines, max_crashes=40)
+        mlines = [model_line(r, pr) for r in reqs]
+        uniq = list(dict.fromkeys(m for m in mlines if m is not None))
+        mans = dict(zip(uniq, bdrv.ask(uniq, timeout=1200))) if bdrv is not None else {}
+        nfail = {}
+
+        def fail(key, what, rp):
+            kk = json.dumps(key, sort_keys=True)
+            nfail[kk] = nfail.get(kk, 0) + 1
+            if nfail[kk] <= 2:
+                ctx.fail(key, what, rp)
+        for i, r in enumerate(reqs):
+            grp = answers[8 * i: 8 * i + 8]
+            op = r.split(" ", 1)[0]
+            fam = re.sub(r"\d+$", "", op.replace("x.", ""))
+            isf = fam in ("setf", "getf")
+            m = mans.get(mlines[i]) if mlines[i] is not None else None
+            ref = prims_float_ref(r) if isf else oracle.answer(r)
+            for k, a in enumerate(grp):
+                ctx.case(("P", pr["name"], k, r), nontrivial=(k != 0))
+                ctx.count("prims_" + fam)
+                rp = {"stream": "prims", "target": {k2: str(v) for k2, v in pr.items() if k2 in ("lang", "endianness", "std", "name")},
+                      "request": f"{k} {r}", "observed": a, "model": m, "reference": ref}
+                if a == "crash:too-many":
+                    ctx.count("prims_not_run_after_too_many_crashes")
+                    continue
+                if a.startswith("crash:"):
+                    fail({"kind": a.split(":", 1)[1], "target": pr["name"], "construct": "support-" + fam},
+                         f"{pr['name']}: the support primitive died under the sanitizers with the buffer at address offset {k}", rp)
+                elif a.startswith("GUARD"):
+                    fail({"kind": "write-in-front-of-buffer", "target": pr["name"], "construct": "support-" + fam},
+                         f"{pr['name']}: bytes in front of the user buffer were modified", rp)
+                elif a != grp[0] and not grp[0].startswith(("crash:", "GUARD")):
+                    fail({"kind": "address-dependent-result", "target": pr["name"], "construct": "support-" + fam},
+                         f"{pr['name']}: the same call gives another result when the buffer sits at address offset {k}", dict(rp, at_offset_0=grp[0]))
+                elif ref is not None and a != ref:
+                    fail({"kind": "wrong-result", "target": pr["name"], "construct": "support-" + fam},
+                         f"{pr['name']}: the primitive's result differs from its contract", rp)
+                if m is not None:
+                    ctx.traces += 1
+                    if a != m:
+                        ctx.disagree("prims/" + pr["name"], {"request": f"{k} {r}"}, m, a)
+        if exit_kind:
+            ctx.fail({"kind": exit_kind, "target": pr["name"], "construct": "support-exit"}, "sanitizer report at exit of the primitives program",
+                     {"stream": "prims", "target": {"name": pr["name"]}, "note": "report at process exit"})
+    ctx.sample({"stream": "prims", "request": "3 " + cases[40][0], "programs": len(state["progs"])})
 
 
 # ------------------------------------------------------------------------------------------------------------
@@ -1246,18 +1607,40 @@ def run(ctx: common.Ctx):
         ctx.extra["translator"] = {"file": "lean/NunavutVerif/Gen/VariantTables.lean", "rewritten": changed, "unions": len(tables)}
     except Exception as e:
         ctx.broken.append({"kind": "translator", "error": f"{type(e).__name__}: {str(e)[:1500]}"})
+    codes = None
+    try:
+        from translate import c_array_kinds
+        rows, codes, changed2 = c_array_kinds.generate()
+        ctx.extra["translator_array_kinds"] = {"files": ["lean/NunavutVerif/Gen/CArrayKinds.lean", "lean/NunavutVerif/Gen/ErrorCodes.lean"], "rewritten": changed2,
+                                               "rows": len(rows), "unsafe_rows": [f"{r['kind']}/override={int(r['override'])}/little={int(r['little'])}" for r in rows
+                                                                                  if r["variable"] and r["overridable"] and r["storMacro"] and "lit" in (r["cmpSer"], r["cmpDe"])]}
+    except Exception as e:
+        ctx.broken.append({"kind": "translator", "target": "c_array_kinds", "error": f"{type(e).__name__}: {str(e)[:1500]}"})
+        try:
+            codes = c_array_kinds.error_codes()
+        except Exception as e2:
+            ctx.broken.append({"kind": "translator", "target": "error_codes", "error": f"{type(e2).__name__}: {str(e2)[:1500]}"})
     # C04_genC_* (memory safety of the implementation-shaped C model in both directions, documented exits only, no
     # serialization assert can fail, prior-state independence of decoding) live in Properties/C01Refine.lean
     _refine = [m for m in ("C01Refine", "C01RefineCpp") if (common.LEAN / "NunavutVerif" / "Properties" / f"{m}.lean").exists()]
-    drivers = ctx.prove(["C04"] + _refine, exes=["variant", "codec"], name_filter=(lambda n: n.startswith("C04_")) if _refine else None)
+    drivers = ctx.prove(["C04"] + _refine, exes=["variant", "codec", "bits"], name_filter=(lambda n: n.startswith("C04_")) if _refine else None)
     vdrv = drivers.get("variant")
+    if codes is None:       # nothing to judge return codes by: keep the historical set so that the other streams still run
+        codes = {"c": [("NUNAVUT_ERROR_INVALID_ARGUMENT", 2), ("NUNAVUT_ERROR_SERIALIZATION_BUFFER_TOO_SMALL", 3), ("NUNAVUT_ERROR_REPRESENTATION_BAD_ARRAY_LENGTH", 10),
+                       ("NUNAVUT_ERROR_REPRESENTATION_BAD_UNION_TAG", 11), ("NUNAVUT_ERROR_REPRESENTATION_BAD_DELIMITER_HEADER", 12)],
+                 "cpp": [("SerializationBufferTooSmall", 3), ("SerializationBadArrayLength", 10), ("RepresentationBadUnionTag", 11), ("RepresentationBadDelimiterHeader", 12)],
+                 "c_returned": [], "cpp_returned": []}
+        documented_codes(ctx, codes, None)
+    else:
+        documented_codes(ctx, codes, vdrv)
     ctx.rule = ("V: corpus op sequences; every op sequence of length <= L over one object slot and every op pair over two slots for every union of two "
                 "alternatives over {primitive, std::array, variable array, owning struct, flat struct}; seeded random sequences (1-3 slots, length 3-20) "
                 "for the sampled (quick) / all (thorough) 263 field-kind lists.  K: corpus namespace + seeded random namespace; per type: boundary-"
                 "biased valid values and values with counts above the capacity / tags outside the option range, serialized into exact-size buffers of "
                 "0, 1, need-1, need, max-1, max, max+1 bytes; valid encodings, truncations, extensions, bit flips, random strings deserialized into "
                 "fresh / 0x00 / 0xAA / 0xFF / 0xA5-filled / previously used objects.  O: 3 element widths x counts 0..8,255,70000 x buffer sizes "
-                "around the need x reduced capacities.  non-trivial = the destination was prepared, the object is invalid, or an owning alternative "
+                "around the need x reduced capacities, bit arrays and NULL arguments included.  P: sizes x bit offsets x lengths around each "
+                "width for every support primitive x buffer address offset 0..7 x {any, little, big} x {C, C++}.  non-trivial = the destination was prepared, the object is invalid, or an owning alternative "
                 "is involved; distinct by (stream, target, request)")
     ctx.assumptions = ["gcc/clang AddressSanitizer, UndefinedBehaviorSanitizer and LeakSanitizer report the memory events of the compiled code",
                        "libstdc++'s std::vector / std::variant are correct; c04::Tracked stands for std::vector in the instrumented variant build",
@@ -1281,14 +1664,16 @@ def run(ctx: common.Ctx):
             shutil.copytree(CORPUS / "types" / "c04c", ns.root / "c04c")
             ns = dsdlgen.load(ns.root)
         namespaces.append((f"ns{rnd}", ns, codec_prepare(ctx, ns, f"ns{rnd}")))
+    pstate = prims_prepare(ctx)       # (after the namespaces: their random choices stay what they were before this stream existed)
     ctx.extra.setdefault("stream_seconds", {})["prepare"] = round(time.time() - t0, 1)
     # ---- phase 2: all builds concurrently ----------------------------------------------------------------------
     t0 = time.time()
-    with concurrent.futures.ThreadPoolExecutor(3 + len(namespaces)) as ex:
+    with concurrent.futures.ThreadPoolExecutor(4 + len(namespaces)) as ex:
         futs = []
         if vstate is not None:
             futs.append(ex.submit(build_variant_builds, vstate["builds"]))
         futs.append(ex.submit(override_build, ostate))
+        futs.append(ex.submit(prims_build, pstate))
         for _, _, specs in namespaces:
             futs.append(ex.submit(build_targets, specs))
         for f in futs:
@@ -1312,6 +1697,12 @@ def run(ctx: common.Ctx):
         ctx.broken.append({"kind": "override-stream", "error": f"{type(e).__name__}: {str(e)[:1500]}"})
     ctx.extra["stream_seconds"]["override"] = round(time.time() - t0, 1)
     t0 = time.time()
+    try:
+        prims_stream(ctx, drivers.get("bits"), pstate)
+    except Exception as e:
+        ctx.broken.append({"kind": "prims-stream", "error": f"{type(e).__name__}: {str(e)[:1500]}"})
+    ctx.extra["stream_seconds"]["prims"] = round(time.time() - t0, 1)
+    t0 = time.time()
     for label, ns, specs in namespaces:
         if ctx.quick:
             codec_stream(ctx, drivers, ns, label, specs, n_values=4, n_invalid=2, n_strings=10)
@@ -1332,6 +1723,8 @@ def replay(ctx, path):
     r = json.loads(open(path).read())
     rp = r.get("replay", {})
     stream = rp.get("stream")
+    from translate import c_array_kinds
+    documented_codes(ctx, c_array_kinds.error_codes(), None)
     if stream == "variant" and "kinds" in rp:
         from translate import variant_tables as vt
         base = ctx.scratch / "rv"
@@ -1354,7 +1747,8 @@ def replay(ctx, path):
         if o["lang"] == "c":
             t = C04CTarget(ns, base / "t", endianness=o["target_endianness"], asserts=o["enable_serialization_asserts"], cc=o["cc"], cflags=SAN)
         else:
-            t = C04CppTarget(ns, base / "t", std=o["std"], asserts=o["enable_serialization_asserts"], cxx=o["cxx"], cxxflags=SAN, parts=2)
+            t = C04CppTarget(ns, base / "t", std=o["std"], asserts=o["enable_serialization_asserts"], cxx=o["cxx"], cxxflags=SAN, parts=2,
+                             extra_nnvg=o.get("nnvg", []))
         if not build_targets([t]):
             print("build failed:", t.build_log[-1500:]); ctx.cleanup(); return 2
         # type indices are positions in the namespace: recompute for the replayed namespace
@@ -1382,6 +1776,7 @@ def replay(ctx, path):
                         "--enable-override-variable-array-capacity", "--outdir", str(base / "gen"), str(CORPUS / "override" / "ov")],
                        capture_output=True, timeout=600, env=env)
         defs = re.findall(r"-Dov_\w+", rp.get("defines", ""))
+        (base / "gen" / "c04_codes.h").write_text(codes_header())
         ok, log = compile_cmd(["g++", f"-std={rp['std']}", "-include", "variant"] + SAN + defs + ["-I", str(base / "gen"), str(HERE / "cpp" / "c04_override.cpp"),
                                "-o", str(base / "ov")])
         if not ok:
@@ -1397,6 +1792,7 @@ def replay(ctx, path):
         subprocess.run([common.PY, "-m", "nunavut", "--target-language", "c", "--enable-override-variable-array-capacity", "--outdir", str(base / "gen"),
                         str(CORPUS / "override" / "ov")], capture_output=True, timeout=600, env=env)
         defs = re.findall(r"-Dov_\w+_ARRAY_CAPACITY_=\d+U", rp.get("defines", ""))
+        (base / "gen" / "c04_codes.h").write_text(codes_header())
         ok, log = compile_cmd(["gcc", "-std=c11"] + SAN + defs + ["-I", str(base / "gen"), str(HERE / "c" / "c04_override.c"), "-o", str(base / "ov"), "-lm"])
         if not ok:
             print("build failed:", log[-1500:]); ctx.cleanup(); return 2
@@ -1404,5 +1800,23 @@ def replay(ctx, path):
         print(json.dumps({"answer": ans, "exit": kind, "before": rp.get("observed")}))
         ctx.cleanup()
         return 1 if ans[0] == rp.get("observed") or ans[0].startswith(("crash", "guard")) else 0
+    if stream == "prims" and "request" in rp:
+        base = ctx.scratch / "rp"
+        base.mkdir(parents=True, exist_ok=True)
+        o = rp["target"]
+        tag = "c" if o["lang"] == "c" else o["std"].replace("+", "p")
+        pr = {"lang": o["lang"], "endianness": o["endianness"], "std": o["std"], "name": o["name"], "dir": base / f"{tag}_{o['endianness']}", "exe": base / "prims"}
+        (base / "ns").mkdir(exist_ok=True)
+        (base / "ns" / "A.1.0.dsdl").write_text("uint8 x\n@sealed\n")
+        prims_build_one(pr, base / "ns")
+        if not pr.get("ok"):
+            print("build failed:", pr.get("log", "")[-1500:]); ctx.cleanup(); return 2
+        k0 = "0 " + rp["request"].split(" ", 1)[1]
+        ans, kind = run_lines(pr["exe"], [rp["request"], k0])
+        print(json.dumps({"answers": ans, "exit": kind, "before": rp.get("observed"), "reference": rp.get("reference")}))
+        ctx.cleanup()
+        bad = bool(kind) or ans[0].startswith(("crash", "GUARD")) or (not ans[1].startswith("crash") and ans[0] != ans[1]) or \
+            (rp.get("reference") is not None and ans[0] != rp["reference"])
+        return 1 if bad else 0
     print("nothing to replay (no failing input in the file)")
     return 1
